@@ -14,7 +14,7 @@ specification allows.
 """
 from . import interp_common as IC
 
-LIT = ["lb", "rb", "dq", "sq", "ent", "x", "sp"]
+LIT = ["lb", "rb", "dq", "sq", "ent", "x", "sp", "nl"]
 
 
 def run(ctx):
@@ -29,11 +29,19 @@ def run(ctx):
         cfg = dict(lit=["x", "rb"], shapes=shapes[7:], contexts=["text", "sqattr", "comment", "cdata"], maxparts=3, maxdol=2, maxstack=0)
         recs = IC.run_spec(ctx, "InterpScan2", cfg)
         IC.replay(ctx, recs, "scan2")
+    # (i') longer texts over a small alphabet: '$' runs at the end of a line, interpolations at the start of the next
+    cfg = dict(lit=["nl", "x", "sp"], shapes=["call"], contexts=["text", "dqattr", "comment", "cdata"], maxparts=4, maxdol=2 if quick else 3, maxstack=0)
+    recs = IC.run_spec(ctx, "InterpScan3", cfg)
+    IC.replay(ctx, recs, "scan3")
     # (ii) contexts x switch nestings
     cfg = dict(lit=["x"], shapes=["call", "strbrace"], contexts=["text", "dqattr", "sqattr", "comment", "qcomment", "cdata"],
                maxparts=2 if quick else 3, maxdol=2, maxstack=2 if quick else 3)
     recs = IC.run_spec(ctx, "InterpCtx", cfg)
     IC.replay(ctx, recs, "contexts")
+    # the interpolation switch belongs to one compilation: a template rejected below meta:interpolation="false" leaves
+    # nothing behind for the templates compiled after it
+    from .. import isolation
+    ctx.replays += isolation.run(ctx, "interpolation state")
     ctx.exhaustive = True
     ctx.rule = ("texts = sequences of parts (literal char class | run of n '$' | brace group of an expression shape), all "
                 "sequences up to the bound; contexts x meta:interpolation nestings x comment option; inputs violating "
